@@ -151,8 +151,22 @@ def merge(results):
                 m['extra'].setdefault(k, v)
         if 'step_budget' in r:
             m['step_budget'] = r['step_budget']
+        for f, d in (r.get('line_reach') or {}).items():
+            t = m.setdefault('line_reach', {}).setdefault(f, {'executable': set(), 'hit': set()})
+            t['executable'].update(d['executable'])
+            t['hit'].update(d['hit'])
         m['wall_s'] = max(m['wall_s'], r.get('wall_s', 0))
     return m
+
+
+def _ranges(lines):
+    out = []
+    for ln in lines:
+        if out and ln == out[-1][1] + 1:
+            out[-1][1] = ln
+        else:
+            out.append([ln, ln])
+    return ['%d' % a if a == b else '%d-%d' % (a, b) for a, b in out]
 
 
 def write_replay(prop, v, n):
@@ -318,6 +332,12 @@ def write_evidence(prop, mod, tier, seed, ns, m, wall, matched, unlisted, inconc
     }
     if 'step_budget' in m:
         cov['step_budget_lines'] = m['step_budget']
+    if 'line_reach' in m:
+        # reach of this check's workload inside the library (function bodies; sys.monitoring LINE events)
+        cov['library_lines_reached'] = {
+            f: {'executable': len(d['executable']), 'executed_at_least_once': len(d['hit']),
+                'never_executed': _ranges(sorted(d['executable'] - d['hit']))}
+            for f, d in sorted(m['line_reach'].items())}
     ev = {'property_id': prop, 'tier': tier, 'seed': seed, 'level': 'exploration', 'coverage': cov,
           'assumptions': list(getattr(mod, 'ASSUMPTIONS', [])), 'wall_s': round(wall, 2),
           'violations': m['n_violations']}
